@@ -24,6 +24,7 @@ Section RunProofs.
   Notation cache_hit := (cache_hit proj cfg schedT fnameT content fpT fpt_eqb gfiles gfp check_presence).
   Notation write_all := (write_all fnameT content fn_eqb).
   Notation upd := (upd fnameT content fn_eqb).
+  Notation unwrite := (unwrite fnameT content fn_eqb).
   Notation present := (present fnameT content).
   Notation effective_force := (effective_force cfg cfg_force).
   Notation gfiles_of := (gfiles_of proj cfg schedT fnameT content gfiles).
@@ -198,7 +199,7 @@ Section RunProofs.
     let plan := gfiles w (s_src st) (s_cfg st) in
     s_src st1 = s_src st /\ s_cfg st1 = s_cfg st /\
     (k < length plan -> r = Failure /\ s_cache st1 = s_cache st /\
-                        (forall f, s_out st1 f = write_all (firstn k plan) (s_out st) f)) /\
+                        (forall f, s_out st1 f = unwrite (nth_error plan k) (write_all (firstn k plan) (s_out st)) f)) /\
     (length plan <= k -> r = Success /\ s_cache st1 = None /\ up_to_date w st1) /\
     cache_hit w st1 = false /\
     (forall w2 r2 st2, gfp w2 (s_src st) (s_cfg st) = gfp w (s_src st) (s_cfg st) ->
